@@ -1,11 +1,12 @@
 import Mutagen.Proofs.ReconcileShape
 import Mutagen.Model.SyncCycle
+import Mutagen.Proofs.Executability
 /-!
 Lemmas for `Properties/C11`: changes below the root leave the root's
 existence and kind alone; the changes `Reconcile` plans at the root path.
 -/
 namespace Mutagen.Proofs.RootSafety
-open Mutagen.Model Mutagen.Proofs.ReconcileShape
+open Mutagen.Model Mutagen.Proofs.ReconcileShape Mutagen.Proofs.Executability
 
 /-- Existence and scalar fields. -/
 def oprops (e : Option Entry) : Option Props := e.map Entry.props
@@ -132,5 +133,45 @@ theorem reconcile_root_cases (mode : Mode) (A α β : Option Entry) (toAlpha : B
       have hc : c ∈ side toAlpha (handleDisagreement mode [] A α β) := by rw [hs]; exact List.mem_cons_self ..
       obtain ⟨h5, h6⟩ := handleDisagreement_old mode [] A α β toAlpha c hc
       exact ⟨c, by rw [← hs, h5], handleDisagreement_path mode [] A α β toAlpha c hc, h6⟩
+
+/-! ## Executability propagation and the emptied-root check -/
+
+theorem isKind_propagate (A S x : Option Entry) (k : Kind) :
+    isKind (propagateExecutability A S x) k = isKind x k := by
+  cases x with
+  | none => rfl
+  | some e =>
+    obtain ⟨p, cs⟩ := e
+    simp only [propagateExecutability, isKind, Entry.kind, propagate_props]
+    split <;> rfl
+
+theorem length_propagateL (ac sc cs : Contents) : (Entry.propagateL ac sc cs).length = cs.length := by
+  have := congrArg List.length (keys_propagateL ac sc cs)
+  simpa [keys] using this
+
+theorem contents_length_propagate (A S x : Option Entry) :
+    (contents (propagateExecutability A S x)).length = (contents x).length := by
+  cases x with
+  | none => rfl
+  | some e =>
+    obtain ⟨p, cs⟩ := e
+    show ((Entry.mk p cs).propagate A S).children.length = cs.length
+    rw [propagate_children]
+    split
+    · exact length_propagateL _ _ _
+    · rfl
+
+/-- Executability propagation does not affect the emptied-root check. -/
+theorem emptied_check_ignores_propagation (portable : Bool) (A : Option Entry) (α β : Scan) :
+    oneEndpointEmptiedRoot A (propagateStep portable A α β).1 (propagateStep portable A α β).2 =
+      oneEndpointEmptiedRoot A α.content β.content := by
+  unfold propagateStep
+  split
+  · split
+    · simp only [oneEndpointEmptiedRoot, isKind_propagate, contents_length_propagate]
+    · split
+      · simp only [oneEndpointEmptiedRoot, isKind_propagate, contents_length_propagate]
+      · rfl
+  · rfl
 
 end Mutagen.Proofs.RootSafety
